@@ -54,7 +54,24 @@ def enc_shapes() -> Dict[str, Any]:
     return shapes
 
 
-def _tok(v: Any, prim_tags_keys) -> List[Any]:
+def _is_text(v: Any) -> bool:
+    if isinstance(v, Sym):
+        return v.typ == 'str'
+    if isinstance(v, str):
+        return True
+    return isinstance(v, App) and v.op == 'cat' and all(_is_text(a) for a in v.args)
+
+
+def _text_array_is_counted_in_bytes(repo: Repo) -> bool:
+    """forge_array handed a text: is the length prefix the length of the UTF-8 bytes it writes (and not the number of characters)?"""
+    fa = repo.func(f'{FORGE}.forge_array')
+    res = Interp(repo, Hooks(), max_depth=1).run_function(fa, [Sym('data', 'str')])
+    enc = App('mcall:encode', Sym('data'))
+    want = App('cat', App('mcall:to_bytes', App('len', enc), 4, 'big'), enc)
+    return len(res) == 1 and res[0].outcome == 'return' and vrepr(res[0].value) == vrepr(want)
+
+
+def _tok(v: Any, prim_tags_keys, repo: Any = None) -> List[Any]:
     """Normalise an encoder result term to a token list."""
     if isinstance(v, bytes):
         return [('const', v.hex())] if v else []
@@ -62,7 +79,7 @@ def _tok(v: Any, prim_tags_keys) -> List[Any]:
         if v.op == 'cat':
             out: List[Any] = []
             for a in v.args:
-                out += _tok(a, prim_tags_keys)
+                out += _tok(a, prim_tags_keys, repo)
             return out
         if v.op == 'child':
             return [('child', v.args[0].name)]
@@ -78,7 +95,13 @@ def _tok(v: Any, prim_tags_keys) -> List[Any]:
                     lb = a.args[1]
                 else:
                     lb = a
-            return [('arr', lb, tuple(_tok(inner, prim_tags_keys)))]
+            if repo is not None and _is_text(inner):
+                # a text handed to the array writer as it is: right only if the writer counts the bytes it writes
+                as_bytes = App('mcall:encode', inner)
+                if _text_array_is_counted_in_bytes(repo):
+                    return [('arr', lb, tuple(_tok(as_bytes, prim_tags_keys, repo)))]
+                return [('arr whose length prefix is not the number of UTF-8 bytes written (a text is handed to forge_array)', lb, tuple(_tok(as_bytes, prim_tags_keys, repo)))]
+            return [('arr', lb, tuple(_tok(inner, prim_tags_keys, repo)))]
         if v.op == f'call:{FORGE}.forge_int' and len(v.args) == 1 and isinstance(v.args[0], App) and v.args[0].op == 'int' \
                 and isinstance(v.args[0].args[0], Sym):
             return [('zint', v.args[0].args[0].name)]
@@ -103,7 +126,7 @@ def encoder_templates(repo: Repo) -> Dict[str, Any]:
         paths = []
         for p in res:
             if p.outcome == 'return':
-                paths.append(('emit', _tok(p.value, keys)))
+                paths.append(('emit', _tok(p.value, keys, repo)))
             else:
                 paths.append(('raise', p.value.cls))
         out[name] = paths
